@@ -385,7 +385,7 @@ class Interp:
             return False
         key = tuple(f.get_id() for f in pc)
         if key in self._feas_cache:
-            return self._feas_cache[key]
+            return self._feas_cache[key][0]
         s = z3.Solver()
         s.set('timeout', self.prune_timeout_ms)
         # quantified lemma axioms only slow a satisfiability check down; dropping them weakens
@@ -396,7 +396,8 @@ class Interp:
         if r == z3.unknown:
             self.stats['prune_unknown'] += 1
         res = r != z3.unsat
-        self._feas_cache[key] = res
+        # the formulas are kept alive with the entry: z3 AST ids are recycled after garbage collection
+        self._feas_cache[key] = (res, list(pc))
         return res
 
     def split(self, st, cond):
@@ -435,11 +436,11 @@ class Interp:
         k = e.get_id()
         r = self._internal_cache.get(k)
         if r is None:
-            r = 'nth_' in e.sexpr()
+            r = ('nth_' in e.sexpr(), e)      # keep e alive: ids are recycled after garbage collection
             if len(self._internal_cache) > 200000:
                 self._internal_cache.clear()
             self._internal_cache[k] = r
-        return r
+        return r[0]
 
     def oblige(self, st, kind, goal, node=None, note='', name=None):
         site = stmt_text(node) if node is not None else ''
@@ -484,6 +485,10 @@ class Interp:
                 return len(o.items) > 0
             if isinstance(o, HSeq):
                 return z3.Length(o.e) > 0
+            if type(o).__name__ == 'HPieces':
+                return z3.Not(o.empty)
+            if isinstance(o, HSplit):
+                return True
             if isinstance(o, HObj):
                 if self.find_method(o.cls, '__len__') or self.find_method(o.cls, '__bool__'):
                     raise EngineLimit('truthiness of object with __len__ (%s)' % o.cls)
@@ -521,6 +526,9 @@ class Interp:
                 if len(oa.items) != len(ob.items):
                     return False
                 return self._and([self.values_eq(st, x, y) for x, y in zip(oa.items, ob.items)])
+            if type(oa).__name__ == 'HPieces' and type(ob).__name__ == 'HPieces':
+                from . import pieces
+                return pieces.equal(self, oa, ob)
             if isinstance(oa, HSeq) and isinstance(ob, HSeq):
                 return oa.e == ob.e
             if isinstance(oa, HSeq) and isinstance(ob, HList):
@@ -579,6 +587,8 @@ class Interp:
         if isinstance(a, SStr) and isinstance(b, SStr):
             if a.is_vec() and b.is_vec() and len(a.chars) == len(b.chars):
                 return SStr(chars=[x if x.eq(y) else z3.If(c, x, y) for x, y in zip(a.chars, b.chars)])
+            if a.is_vec() and b.is_vec():
+                return SIte(c, a, b)      # keep both as code-point vectors (forced - path split - on use)
             return SStr(expr=z3.If(c, a.z(), b.z()))
         if isinstance(a, STuple) and isinstance(b, STuple) and len(a.items) == len(b.items):
             return STuple([self.merge_values(st, c, x, y) for x, y in zip(a.items, b.items)])
@@ -1118,7 +1128,19 @@ class Interp:
         j = z3.If(i < 0, nz + i, i)
         return j, z3.And(j >= 0, j < nz)
 
+    def materialize_split(self, st, ref):
+        """replace a lazily split vector string by the list of its pieces (forks on separator positions)"""
+        from . import contracts_rt as C
+        hs = st.heap[ref.addr]
+        for st1, parts in C.split_force(self, hs, st):
+            st1.heap[ref.addr] = HList(parts)
+            yield st1
+
     def do_index(self, node, base, idx, st):
+        if isinstance(base, Ref) and isinstance(st.heap[base.addr], HSplit):
+            for st1 in self.materialize_split(st, base):
+                yield from self.do_index(node, base, idx, st1)
+            return
         if isinstance(base, SIte) or isinstance(idx, SIte):
             for st1, b1 in self.force(st, base):
                 for st2, i1 in self.force(st1, idx):
@@ -1185,6 +1207,12 @@ class Interp:
                     else:
                         yield st1, from_z(o.e[j], o.ety)
                 return
+            if type(o).__name__ == 'HPieces':
+                from . import pieces
+                if isinstance(idx, SInt) and idx.conc() == -1:
+                    yield from pieces.last(self, node, st, o)
+                    return
+                raise EngineLimit('index other than [-1] into abstract split pieces')
             if isinstance(o, HDict):
                 for k, v in o.items:
                     e = self.values_eq(st, idx, k)
@@ -1230,6 +1258,19 @@ class Interp:
                     for st3, h1 in self.force(st2, hi):
                         yield from self.do_slice(node, b1, l1, h1, st3)
             return
+        if isinstance(base, SStr) and base.parts is not None and hi is None and isinstance(lo, SInt) and lo.conc() == 1:
+            P, cs, sepc = base.parts
+            for st1, emp in self.split(st, P == z3.StringVal('')):
+                if emp:
+                    yield st1, SStr(chars=cs[1:])
+                else:
+                    P2 = z3.SubString(P, 1, z3.Length(P) - 1)
+                    v = SStr(expr=z3.Concat(P2, SStr(chars=cs).z()) if cs else P2)
+                    v.parts = (P2, cs, sepc)
+                    # P2 is again empty or ends with the separator (P had at least one character)
+                    st1.pc.append(z3.Or(P2 == z3.StringVal(''), z3.SuffixOf(z3.StringVal(chr(sepc)), P2)))
+                    yield st1, v
+            return
         if isinstance(base, SStr):
             n = base.length()
             a = self.clamp_bound(lo, n, '0')
@@ -1237,7 +1278,16 @@ class Interp:
             if base.is_vec():
                 ac, bc = SInt(a).conc(), SInt(b).conc()
                 if ac is None or bc is None:
-                    raise EngineLimit('symbolic slice of vector string')
+                    # symbolic bound on a vector: split on its value (0..n)
+                    for av in (range(n + 1) if ac is None else [ac]):
+                        for st1, ok1 in (self.split(st.fork(), a == av) if ac is None else [(st.fork(), True)]):
+                            if not ok1:
+                                continue
+                            for bv in (range(n + 1) if bc is None else [bc]):
+                                for st2, ok2 in (self.split(st1.fork(), b == bv) if bc is None else [(st1.fork(), True)]):
+                                    if ok2:
+                                        yield st2, SStr(chars=base.chars[av:bv])
+                    return
                 yield st, SStr(chars=base.chars[ac:bc])
             else:
                 ln = z3.If(b - a < 0, 0, b - a)
@@ -1521,6 +1571,8 @@ class Interp:
 
     cur_func_qual = None
     merge_specs = True
+    case_serial = 0
+    _spec_pins = []
     base_pc = ()
     opaque_specs = ()
     _uf_cache = {}
@@ -1561,7 +1613,7 @@ class Interp:
         keys = tuple(self._argkey(st, a) for a in args)
         if any(k is None for k in keys):
             return None
-        ck = (f.name, keys, self.opaque_specs, id(self.base_pc))
+        ck = (f.name, keys, self.opaque_specs, self.case_serial)
         if not hasattr(self, '_spec_cache'):
             self._spec_cache = {}
         ent = self._spec_cache.get(ck)
@@ -1587,6 +1639,7 @@ class Interp:
                 raise
             ent = outs if ok and outs else False
             self._spec_cache[ck] = ent
+            self._spec_pins.append(list(args))    # keep the argument terms alive (ids are recycled after GC)
         if ent is False:
             return None
         if any(d for _, _, d in ent):
@@ -2084,6 +2137,17 @@ class Interp:
         return go(0, st)
 
     def del_index(self, node, base, idx, st):
+        if isinstance(base, Ref) and isinstance(st.heap[base.addr], HSplit):
+            for st1 in self.materialize_split(st, base):
+                yield from self.del_index(node, base, idx, st1)
+            return
+        if isinstance(base, Ref) and type(st.heap[base.addr]).__name__ == 'HPieces':
+            from . import pieces
+            if isinstance(idx, SInt) and idx.conc() == -1:
+                for st1, sig in pieces.del_last(self, node, st, base):
+                    yield st1, (NORMAL if sig == ('normal',) else sig)
+                return
+            raise EngineLimit('del other than [-1] on abstract split pieces')
         if isinstance(base, Ref):
             o = st.heap[base.addr]
             if isinstance(o, HList):
